@@ -137,6 +137,17 @@ Example nest_ex_matches :
   /\ parent_set D parents = [true; false; false]
   /\ map (matches D [] (XCons (Cp 0 false (Some 1) SNil) (XCons (Cp 2 false (Some 2) SNil) XNil))) [0%nat; 1%nat; 2%nat] = [false; false; true].
 Proof. vm_compute. repeat split; reflexivity. Qed.
+Example nest_ex_cross :   (* a, b { & > & {} } without :is() => a > a, a > b, b > a, b > b *)
+  lower_expand (LCons (ty1 1) (LCons (ty1 2) LNil)) (LCons (XCons (Cp 0 true None SNil) (XCons (Cp 1 true None SNil) XNil)) LNil)
+  = [XCons (Cp 0 false (Some 1) SNil) (XCons (Cp 1 false (Some 1) SNil) XNil);
+     XCons (Cp 0 false (Some 1) SNil) (XCons (Cp 1 false (Some 2) SNil) XNil);
+     XCons (Cp 0 false (Some 2) SNil) (XCons (Cp 1 false (Some 1) SNil) XNil);
+     XCons (Cp 0 false (Some 2) SNil) (XCons (Cp 1 false (Some 2) SNil) XNil)].
+Proof. vm_compute. reflexivity. Qed.
+Example nest_ex_refuted_witnesses :
+  native_spec wL_parents wL_child = (0, 1, 1)%nat /\
+  existsb (fun s => matches (tree_dom wN_doc) [] s 1%nat) (lower_expand wN_parents (LCons wN_child LNil)) = false.
+Proof. vm_compute. split; reflexivity. Qed.
 Example dedupe_ex :
   keep_last decl_eqb [mkDecl 1 1 true 0; mkDecl 1 2 false 0; mkDecl 1 1 false 0; mkDecl 1 1 true 0; mkDecl 1 2 false 0]
   = [mkDecl 1 1 false 0; mkDecl 1 1 true 0; mkDecl 1 2 false 0].
